@@ -46,9 +46,9 @@ func (c20) ParentPhase(env *kernel.Env) kernel.PhaseResult {
 	scr := os.Getenv("VERIF_SCR")
 	raceNote, _ := os.ReadFile(filepath.Join(scr, "c20-race-note.txt"))
 	res.Coverage["race_detector"] = strings.TrimSpace(string(raceNote))
-	runs2, runs2b, runs3 := 300, 100, 24
+	runs2, runs2b, runs3 := 300, 30, 24
 	if env.Tier == "thorough" {
-		runs2, runs2b, runs3 = 20000, 1500, 500
+		runs2, runs2b, runs3 = 20000, 400, 500
 	}
 	type tier struct {
 		name, bin, sig string
